@@ -385,3 +385,50 @@ func TestPruneAndSources(t *testing.T) {
 	}
 	tx.Commit(ctx)
 }
+
+// An insert whose unique key is held by another session's uncommitted row: Postgres waits;
+// with SetDetectWaits the statement fails with 55P03; OpenTransactions lists the sessions.
+func TestOpenTransactionsAndDetectWaits(t *testing.T) {
+	ctx := context.Background()
+	s, p := start(t)
+	if _, err := p.Exec(ctx, shovel.Schema); err != nil {
+		t.Fatal(err)
+	}
+	args := []any{1, "main", "ig", 7, []byte{1}, 9, []byte{2}, 0, 1, 0, time.Second}
+	a, err := p.Begin(ctx)
+	if err != nil {
+		t.Fatal(err)
+	}
+	if _, err := a.Exec(ctx, insCursor, args...); err != nil {
+		t.Fatal(err)
+	}
+	if n := len(s.OpenTransactions()); n != 1 {
+		t.Fatalf("open transactions: %d", n)
+	}
+	b, err := p.Begin(ctx)
+	if err != nil {
+		t.Fatal(err)
+	}
+	// off: the second writer is not stopped at the insert
+	if _, err := b.Exec(ctx, insCursor, args...); err != nil {
+		t.Fatalf("without detection: %v", err)
+	}
+	b.Rollback(ctx)
+	s.SetDetectWaits(true)
+	if b, err = p.Begin(ctx); err != nil {
+		t.Fatal(err)
+	}
+	_, err = b.Exec(ctx, insCursor, args...)
+	var pe *pgconn.PgError
+	if !errors.As(err, &pe) || pe.Code != "55P03" {
+		t.Fatalf("with detection: %v", err)
+	}
+	b.Rollback(ctx)
+	a.Rollback(ctx)
+	if n := len(s.OpenTransactions()); n != 0 {
+		t.Fatalf("open transactions after rollback: %d", n)
+	}
+	if _, err := p.Exec(ctx, insCursor, args...); err != nil {
+		t.Fatalf("after the holder ended: %v", err)
+	}
+}
